@@ -20,7 +20,9 @@ META = {
     'rule': 'BFS over histories of execute(1)/execute(2)/execute(3)/execute_systems()/execute_systems(True)/'
             'complete()/add/remove, per (completer position, completing timestep); distinct_nontrivial counts '
             'distinct (status, clock, log of the last operation) observations',
-    'alphabet': {'completer_position(priority)': POS, 'completing_timestep': TCS, 'logger': 'library default, or a caller-supplied logger with level ERROR', 'recorders(key,priority)': RECS,
+    'alphabet': {'completer_position(priority)': POS, 'completing_timestep': TCS, 'logger': 'library default, or a caller-supplied logger with level ERROR',
+                 'completer style': 'plain | complete()+clean_up() in one execute | complete() then raise (caught by the '
+                                    'driver) | all systems with a finite end=2', 'recorders(key,priority)': RECS,
                  'ops': 'execute(1), execute(2), execute(3), execute_systems(), execute_systems(throw_error=True), '
                         'complete() from outside, remove/add r0, remove/add rm, add new (priority 3), '
                         'complete() from inside by the completer when timestep == tc'},
@@ -35,10 +37,18 @@ class World:
     pass
 
 
+class Halt(Exception):
+    pass
+
+
 class Harness:
-    def __init__(self, pos, tc, horizon=4, second=False, quiet=False):
+    def __init__(self, pos, tc, horizon=4, second=False, quiet=False, style='plain'):
         self.pos, self.tc, self.horizon, self.second, self.quiet = pos, tc, horizon, second, quiet
-        self.config = {'pos': pos, 'tc': tc, 'horizon': horizon, 'second': second, 'quiet': quiet}
+        # style of the completing system: 'plain'; 'self_removing' (complete() then clean_up() in the same execute);
+        # 'raises' (complete() then raises an exception the driver catches); 'finite_ends' (every system has end=2)
+        self.style = style
+        self.end = 2 if style == 'finite_ends' else None
+        self.config = {'pos': pos, 'tc': tc, 'horizon': horizon, 'second': second, 'quiet': quiet, 'style': style}
         self.cn = Canon()
 
     def fresh(self):
@@ -56,25 +66,32 @@ class Harness:
             def execute(self):
                 log.append(self.id)
 
+        style = self.style
+
         class Completer(Core.System):
             def execute(self):
                 log.append(self.id)
                 if self.model.systems.timestep == tc:
                     self.model.complete()
+                    if style == 'self_removing':
+                        self.clean_up()
+                    elif style == 'raises':
+                        raise Halt('stop the run')
 
+        kw = {} if self.end is None else {'end': self.end}
         w.objs = {}
         w.reg = []            # (priority, seq, key)
         w.seq = 0
         w.completers = {}
         if POS[self.pos] is not None:
-            w.objs['cp'] = Completer('cp', m, priority=POS[self.pos])
+            w.objs['cp'] = Completer('cp', m, priority=POS[self.pos], **kw)
             w.completers['cp'] = tc
         if self.second:
-            w.objs['cp2'] = Completer('cp2', m, priority=1)
+            w.objs['cp2'] = Completer('cp2', m, priority=1, **kw)
             w.completers['cp2'] = tc
         for key, prio in RECS:
-            w.objs[key] = Rec(key, m, priority=prio)
-        w.objs['new'] = Rec('new', m, priority=3)
+            w.objs[key] = Rec(key, m, priority=prio, **kw)
+        w.objs['new'] = Rec('new', m, priority=3, **kw)
         # registration: the completer first, so that for equal priority it precedes the recorder ('mid')
         for key in (['cp'] if 'cp' in w.objs else []) + [k for k, _ in RECS] + (['cp2'] if self.second else []):
             self._register(w, key)
@@ -104,9 +121,13 @@ class Harness:
     def _expected_step(self, w):
         """Reference for one running timestep: returns (log entries, completes?)."""
         out = []
+        if self.end is not None and w.t > self.end:
+            return out, False            # every window has closed
         for prio, seq, key in sorted(w.reg, key=lambda r: (-r[0], r[1])):
             out.append(key)
             if key in w.completers and w.t == w.completers[key]:
+                if self.style == 'self_removing':
+                    w.reg = [r for r in w.reg if r[2] != key]
                 return out, True
         return out, False
 
@@ -168,12 +189,16 @@ class Harness:
                 completed_at = w.t
             else:
                 w.t += 1
-        if kind == 'execute':
-            m.execute(n)
-        elif kind == 'xs':
-            m.systems.execute_systems()
-        else:
-            m.systems.execute_systems(throw_error=True)   # behaves as a step while running
+        try:
+            if kind == 'execute':
+                m.execute(n)
+            elif kind == 'xs':
+                m.systems.execute_systems()
+            else:
+                m.systems.execute_systems(throw_error=True)   # behaves as a step while running
+        except Halt:
+            if completed_at is None:
+                raise Violation(f'{op}: the completer raised although it was not its completing timestep')
         got = w.log[n0:]
         if got != exp:
             raise Violation(f'{op}: executed systems differ (completion must skip the rest of the timestep and all '
@@ -216,6 +241,12 @@ def configs(tier):
             yield (pos, tc, 4 if tier == 'quick' else 6, False)
     for pos in POS:
         yield (pos, 1, 4 if tier == 'quick' else 6, False, True)       # caller-supplied quiet logger
+    for style in ('self_removing', 'raises', 'finite_ends'):
+        for pos in ('first', 'mid', 'last'):
+            for tc in ((1,) if tier == 'quick' else TCS):
+                yield (pos, tc, 4 if tier == 'quick' else 6, False, False, style)
+    # no completing system, every window closes at 2: completion from outside after all windows have closed
+    yield ('none', 0, 5 if tier == 'quick' else 7, False, False, 'finite_ends')
     if tier == 'thorough':
         for pos in ('first', 'last'):
             for tc in TCS:
@@ -225,7 +256,8 @@ def configs(tier):
 def run(ctx):
     for cfg in configs(ctx.tier):
         h = Harness(*cfg)
-        name = f'{cfg[0]}@t{cfg[1]}' + ('+second' if cfg[3] else '') + ('+quietlogger' if len(cfg) > 4 and cfg[4] else '')
+        name = f'{cfg[0]}@t{cfg[1]}' + ('+second' if cfg[3] else '') + ('+quietlogger' if len(cfg) > 4 and cfg[4] else '') + \
+            (f'+{cfg[5]}' if len(cfg) > 5 else '')
         r = hbfs.explore(ctx, h, name, max_depth=40, procs=ctx.procs)
         ctx.leg(name, **r)
         if not r.get('fixpoint'):
@@ -236,4 +268,5 @@ def run(ctx):
 
 def replay(case):
     c = case['config']
-    hbfs.replay_case(Harness(c['pos'], c['tc'], c['horizon'], c['second'], c.get('quiet', False)), case)
+    hbfs.replay_case(Harness(c['pos'], c['tc'], c['horizon'], c['second'], c.get('quiet', False),
+                             c.get('style', 'plain')), case)
